@@ -53,6 +53,8 @@ def fixtures():
 
 
 def close(a, b, rtol=RTOL):
+    if a == b:  # also covers -inf == -inf (all branch lengths zero, differing sequences)
+        return True
     return abs(a - b) <= rtol * max(1.0, abs(a), abs(b))
 
 
@@ -70,6 +72,9 @@ def nested_pair(run, rec):
         null.set_motif_probs(pi)
     for pn, v in rec["nullparams"]:
         null.set_param_rule(pn, init=float(frac(v)))
+    null_lengths = {"a": 0.0, "b": 0.33, "c": 0.07}  # not the tree's own lengths; one sits on the lower bound
+    for e, v in null_lengths.items():
+        null.set_param_rule("length", edge=e, init=v)
     alt = get_model(rec["alt"]).make_likelihood_function(fx["tree"])
     alt.set_alignment(aln)
     try:
@@ -84,6 +89,9 @@ def nested_pair(run, rec):
         if not close(got, float(frac(v)), 1e-9):
             chosen = dict((a, b) for a, b in rec["chosen"]).get(pn)
             run.fail(key0 + f":param-value:from={'ref_cell' if chosen == 'ref_cell' else 'param'}", {"pair": key0, "param": pn, "got": got, "want": float(frac(v)), "mapped_from": chosen}, what="projected parameter value differs from the coordinate projection")
+    for e, v in null_lengths.items():
+        if not close(alt.get_param_value("length", edge=e), v, 1e-9):
+            run.fail(key0 + f":length:{'zero' if v == 0 else 'positive'}", {"pair": key0, "edge": e, "got": alt.get_param_value("length", edge=e), "want": v}, what="branch length not carried over by initialise_from_nested")
     for edge in ("a", "b", "c"):
         qa = alt.get_rate_matrix_for_edge(edge, calibrated=True).array
         qn = null.get_rate_matrix_for_edge(edge, calibrated=True).array
@@ -104,6 +112,8 @@ def nested_scope(run, rec):
     null.set_alignment(fx["dna"])
     for block, v in rec["null"]:
         null.set_param_rule("kappa", edges=list(block), is_independent=False, init=1.5 * v)
+    for e, lv in rec["lengths"].items():
+        null.set_param_rule("length", edge=e, init=0.17 * lv)
     alt = get_model("HKY85").make_likelihood_function(fx["tree"])
     alt.set_alignment(fx["dna"])
     for block in rec["alt"]:
@@ -117,6 +127,10 @@ def nested_scope(run, rec):
     bad = [e for e, v in rec["expected"].items() if not close(alt.get_param_value("kappa", edge=e), 1.5 * v, 1e-9)]
     if bad:
         run.fail(f"nested-scope:{shape}:values", {"null": rec["null"], "alt": rec["alt"], "edges": bad, "got": {e: alt.get_param_value("kappa", edge=e) for e in rec["expected"]}}, what="per-edge values not inherited from the null's blocks")
+    badl = [e for e, lv in rec["lengths"].items() if not close(alt.get_param_value("length", edge=e), 0.17 * lv, 1e-9)]
+    if badl:
+        zero = any(rec["lengths"][e] == 0 for e in badl)
+        run.fail(f"nested-scope:{shape}:lengths:{'zero-length' if zero else 'positive-length'}", {"null": rec["null"], "alt": rec["alt"], "edges": badl, "want": {e: 0.17 * lv for e, lv in rec["lengths"].items()}, "got": {e: alt.get_param_value("length", edge=e) for e in rec["lengths"]}}, what="branch lengths of the nested function were not carried over")
     if not close(alt.lnL, null.lnL):
         run.fail(f"nested-scope:{shape}:lnL", {"null": rec["null"], "alt": rec["alt"], "lnL_null": null.lnL, "lnL_alt": alt.lnL}, what="lnL not reproduced for scope nesting")
     if alt.nfp <= null.nfp:
